@@ -394,13 +394,85 @@ class BasinProxy:
 
     def __getitem__(self, feat):
         if feat not in self._features:
-            feat_obj = BasinProxyFeature(feat_obj=self.ds[feat],
-                                         basinmap=self.basinmap)
+            if feat == "contour":
+                feat_obj = BasinProxyContour(feat_obj=self.ds[feat],
+                                             basinmap=self.basinmap)
+            elif feat == "trace":
+                feat_obj = BasinProxyTrace(feat_obj=self.ds[feat],
+                                           basinmap=self.basinmap)
+            else:
+                feat_obj = BasinProxyFeature(feat_obj=self.ds[feat],
+                                             basinmap=self.basinmap)
             self._features[feat] = feat_obj
         return self._features[feat]
 
     def __len__(self):
         return len(self.basinmap)
+
+
+class BasinProxyContour:
+    def __init__(self, feat_obj, basinmap):
+        """Wrap around a contour feature object, mapping it upon data access
+
+        Contours have different lengths for each event and can thus
+        not be represented as an array.
+        """
+        self.feat_obj = feat_obj
+        self.basinmap = basinmap
+        self.shape = (len(basinmap), np.nan, 2)
+
+    def __getitem__(self, index):
+        if isinstance(index, numbers.Integral):
+            return self.feat_obj[self.basinmap[index]]
+        else:
+            return [self.feat_obj[idx] for idx in self.basinmap[index]]
+
+    def __iter__(self):
+        for idx in self.basinmap:
+            yield self.feat_obj[idx]
+
+    def __len__(self):
+        return len(self.basinmap)
+
+    @property
+    def dtype(self):
+        return self.feat_obj.dtype
+
+
+class BasinProxyTrace:
+    def __init__(self, feat_obj, basinmap):
+        """Wrap around a trace feature object, mapping the individual traces
+
+        Trace feature objects are dictionary-like objects with the
+        trace names as keys.
+        """
+        self.feat_obj = feat_obj
+        self.basinmap = basinmap
+        self._traces = {}
+
+    def __contains__(self, item):
+        return item in self.feat_obj
+
+    def __getitem__(self, key):
+        if key not in self._traces:
+            self._traces[key] = BasinProxyFeature(feat_obj=self.feat_obj[key],
+                                                  basinmap=self.basinmap)
+        return self._traces[key]
+
+    def __iter__(self):
+        for key in sorted(self.keys()):
+            yield key
+
+    def __len__(self):
+        return len(self.feat_obj)
+
+    def keys(self):
+        return self.feat_obj.keys()
+
+    @property
+    def shape(self):
+        key0 = sorted(self.keys())[0]
+        return tuple([len(self)] + list(self[key0].shape))
 
 
 class BasinProxyFeature(np.lib.mixins.NDArrayOperatorsMixin):
